@@ -146,6 +146,10 @@ func buildC05(e *engine, p *rt.Package) {
 					if !plainJSON {
 						res.class("request_content_type:other")
 					}
+					if len(body) > 0 && rapid.IntRange(0, 5).Draw(t, "unknown_length") == 0 {
+						hdr[unknownLengthMarker] = []string{"1"} // streamed body: no Content-Length
+						res.class("transfer:chunked")
+					}
 					rec, panicked := srv.serve(info.Verb, target, hdr, body)
 					if panicked != "" {
 						t.Fatalf("server panicked on %s %s: %s\nbody: %s", info.Verb, target, panicked, short(string(body), 500))
